@@ -114,7 +114,9 @@ def pp_decl(d):
     return f"array {d[1]}[{pp_expr(d[2])}];"
 
 
-def to_source(prog, comment=None):
+def to_source(prog, comment=None, layout=None):
+    """layout: optional Rng-like object with .below(n) used to sprinkle comments (`| text` to end of
+    line) and blank lines; the token sequence is unchanged."""
     out = []
     if comment:
         out.append("| " + comment)
@@ -126,7 +128,22 @@ def to_source(prog, comment=None):
         for d in p["locals"]:
             out.append("  " + pp_decl(d))
         out.append(pp_stmt(p["body"], 1))
-    return "\n".join(out) + "\n"
+    text = "\n".join(out) + "\n"
+    if layout is not None:
+        lines = []
+        for ln in text.split("\n"):
+            k = layout.below(12)
+            if k == 0:
+                lines.append(ln + " | " + "note ; := { } \" ' 123 #FF while"[: 3 + layout.below(30)])
+            elif k == 1:
+                lines.append("")
+                lines.append(ln)
+            elif k == 2:
+                lines.append("\t" + ln + "   ")
+            else:
+                lines.append(ln)
+        text = "\n".join(lines)
+    return text
 
 
 # ------------------------------------------------------------------------------------------------
@@ -984,7 +1001,7 @@ class Gen:
         kind = "func" if r.chance(3, 5) else "proc"
         p = PInfo(self.fresh("proc"), kind)
         sc = Scope(self, p)
-        nform = r.choice([0, 1, 1, 2, 2, 3, 4])
+        nform = r.choice([0, 1, 1, 2, 2, 3, 4, 5, 8] if r.chance(1, 5) else [0, 1, 1, 2, 2, 3, 4])
         style = r.below(100)
         p.pure = kind == "func" and r.chance(1, 2)
         sc.must_pure = p.pure
@@ -1014,7 +1031,7 @@ class Gen:
                 p.formals.append(("val", n, 0, False))
                 sc.vformals.append(n)
         locals_ = []
-        for _ in range(r.below(3)):
+        for _ in range(r.below(3) if r.chance(4, 5) else 3 + r.below(5)):
             n = self.local_name(sc)
             if n is not None and n not in names and n not in sc.vars:
                 if r.chance(1, 4):
